@@ -13,6 +13,8 @@ import (
 	"strings"
 	"time"
 
+	"github.com/ryogrid/SamehadaDB/lib/execution/plans"
+
 	"verif/core"
 )
 
@@ -146,12 +148,16 @@ func c14Cfg(p c14Params) *WorldCfg {
 		}
 		for i := range sqls {
 			ops = append(ops, fmt.Sprintf("raw:0:%d", i))
+			if strings.HasPrefix(sqls[i], "SELECT") {
+				// the same statement below a LIMIT 1 node (plan level): the parent stops pulling early
+				ops = append(ops, fmt.Sprintf("raw:0:%d~L1", i))
+			}
 			if strings.Contains(sqls[i], " JOIN ") && !strings.Contains(sqls[i], " OR ") {
 				// every plan the optimizer could pick among equal-cost candidates (hook H3)
 				if pfs, _, f := w.db.PlanVariants(sqls[i]); f == nil {
 					for _, pf := range pfs {
 						if s := pf.String(); s != "" {
-							ops = append(ops, fmt.Sprintf("raw:0:%d#%s", i, s))
+							ops = append(ops, fmt.Sprintf("raw:0:%d#%s", i, s), fmt.Sprintf("raw:0:%d#%s~L1", i, s))
 						}
 					}
 				}
@@ -172,8 +178,13 @@ func c14Cfg(p c14Params) *WorldCfg {
 		var txn, si int
 		fmt.Sscanf(op, "raw:%d:%d", &txn, &si)
 		var choices PlanChoices
+		limited := strings.HasSuffix(op, "~L1")
 		if i := strings.IndexByte(op, '#'); i > 0 {
-			choices = ParsePlanChoices(op[i+1:])
+			choices = ParsePlanChoices(strings.TrimSuffix(op[i+1:], "~L1"))
+		}
+		if limited {
+			PlanWrap = func(p plans.Plan) plans.Plan { return plans.NewLimitPlanNode(p, 1, 0) }
+			defer func() { PlanWrap = nil }()
 		}
 		SetPlanChoices(choices)
 		defer SetPlanChoices(nil)
@@ -185,6 +196,9 @@ func c14Cfg(p c14Params) *WorldCfg {
 			r = w.txns[txn].Exec(sqls[si])
 		}
 		kind := fmt.Sprintf("stmt%d", si)
+		if limited {
+			kind += "/under-limit"
+		}
 		if r.Fail != nil {
 			v := w.viol("statement-failed/"+kind+"/"+r.Fail.Kind+"@"+r.Fail.Where, op, shortSQL(sqls[si])+" -> "+r.Fail.String())
 			v.Ignore = true // a statement that panics is C06's business; pins after a panic are meaningless
